@@ -291,7 +291,11 @@ func (fr *frame) scanCallMods(m *loopMods, info *types.Info, call *ast.CallExpr,
 				switch fn.FullName() {
 				case "(*sync.Mutex).Lock", "(*sync.RWMutex).Lock", "(*sync.RWMutex).RLock":
 					// guarded fields are havoc'd at acquisition
-					ownerT := info.TypeOf(unparen(f.X).(*ast.SelectorExpr).X)
+					lockSel, isSel := unparen(f.X).(*ast.SelectorExpr)
+					if !isSel {
+						return // embedded mutex (b.Lock()): no `guarded` declaration can name it
+					}
+					ownerT := info.TypeOf(lockSel.X)
 					if p, ok := ownerT.Underlying().(*types.Pointer); ok {
 						ownerT = p.Elem()
 					}
